@@ -144,16 +144,18 @@ PROPS["C10"] = {
 }
 
 PROPS["C11"] = {
-    "kani": ["c11_kitty"],
+    "kani": ["c11_kitty", "c11_erase"],
     "verus": ["base64enc"],
-    "technique": "Kani function contracts (proof_for_contract + stub_verified) on the placement-id functions",
+    "technique": "Kani function contracts (proof_for_contract + stub_verified) on the placement-id functions; modular Kani harness on KittyImageHandler::erase with the id functions replaced by recorders; Verus on the payload encoder",
     "level_text": "Proved (Kani contracts, all positions below 65536): kitty_placement_id == row + col*65536 <= 2^32-1, kitty_placement_to_pos inverts it, ids are injective - so erase(img, pos) addresses exactly the "
-                  "placement draw(img, pos) creates (both call the same function on the same position). Payload = base64 of row-major RGBA rests on C07 (iteration order) + C14 (encoder). "
+                  "placement draw(img, pos) creates (both call the same function on the same position). "
+                  "Proved (Kani, every position; id functions replaced by recorders): erase(img, Some(pos)) emits exactly one command, built from the image id of that image and the placement id of exactly that position; erase(img, None) addresses the image only. Payload = base64 of row-major RGBA rests on C07 (iteration order) + C14 (encoder). "
                   "Proved (Verus, unit base64enc): the payload encoder emits exactly b64(bytes) for any write partition, its length is 4*ceil(n/3) (a multiple of four), and cutting such a payload into 4096-byte pieces gives pieces that are multiples of four with only the last one shorter (lemma_chunks_4096) - the arithmetic the chunk loop relies on. "
                   "That draw() runs exactly that loop with m = (index + 1 < count), the transmit-once HashMap cache, re-transmission on error and the control strings (core::fmt, dyn Write) are NOT decided.",
-    "level_note": "Partial: identifiers only. KittyImageHandler::draw/erase/handle bodies are assumed.",
+    "level_note": "Partial: identifiers and erase's addressing. KittyImageHandler::draw/handle bodies are assumed (HashMap cache: hashbrown's SIMD probing does not finish in CBMC).",
     "assumptions": [
-        "draw and erase derive the placement id by calling kitty_placement_id(pos) (read from the source)",
+        "draw derives the placement id by calling kitty_placement_id(pos) (read from the source); for erase this is checked",
+        "erase harness: tracing log statements removed (K1), the OS-seeded hashing keys of the (unused) cache fixed; the bytes of the command go through core::fmt",
         "kitty_image_id = hash % (2^32-1) may be 0, which the protocol reserves: observation, not checked",
         "chunk loop, HashMap cache, re-transmission on error: not under contract",
     ],
